@@ -197,13 +197,14 @@ def run(ctx, res):
         "allocation failure is outside the fault model",
         "file_close completes; pwrite writes what it reports",
     ]
-    run_storage_rules(prog, res, ("TIFF-FINALISE", "STOP-CLOSES", "FD-TYPESTATE"), "FINALISE-SIM")
+    run_storage_rules(prog, res, ("TIFF-FINALISE", "STOP-CLOSES", "FD-TYPESTATE"), "FINALISE-SIM",
+                      kinds=("tiff", "tiff-json"))
     sample_format_exhaustive(prog, res)
     header_constants(prog, res)
     append_iteration(prog, res)
     if format_literals(prog, res) < 1:
         raise AnalysisBroken("no format-string call sites found in tiff.cpp")
-    res.require_min("FINALISE-SIM", 4)
+    res.require_min("FINALISE-SIM", 2)
     res.require_min("T-EXH", 8)
     res.require_min("T-CONST", 2)
     res.require_min("R-FRAME-TAGS", 4)
